@@ -43,3 +43,29 @@ Theorem c08_unreal2_order_refuted :
   <> fst (u2_query 7778 (Some (mk_u2g Enforce Skip)) None (net_init [Datagram u2_ex_info; Datagram u2_ex_p2; Datagram u2_ex_p1] [] [])).
 Proof. vm_compute. discriminate. Qed.
 Print Assumptions c08_unreal2_order_refuted.
+
+(* GameSpy 3: each splitnum packet is stored under its own number (the step of
+   gs3_packets_loop is [put]), so the assembled response does not depend on the
+   arrival order of packets with distinct numbers. GameSpy 1 parts and the
+   termination of both loops (wait until every part up to the final one is
+   there, fixes 97f13c6 and cd2e729) are decided by the permutation and
+   duplication streams of the check. *)
+From GD Require Import Model.Gamespy Spec.Rand Spec.GamespySpec Proofs.GamespyOrder.
+From Coq Require Import Permutation.
+Theorem c08_gamespy3_assembly_order_independent : forall pkts pkts' vs,
+  Permutation pkts pkts' -> NoDup (map fst pkts) -> collect pkts vs = collect pkts' vs.
+Proof. exact collect_order_independent. Qed.
+Print Assumptions c08_gamespy3_assembly_order_independent.
+
+(* tests: a generated multi-packet GameSpy 3 response and a multi-part GameSpy 1
+   response, received in reverse order, give the in-order result *)
+Example c08_ex_gamespy :
+  let s3 := fst (gen_s3 5) in
+  let s1 := fst (gen_s1 2) in
+  (2 <=? length (s3_packets s3))%nat = true /\
+  bytes_eqb (show_outcome show_gs3 (fst (gs3_query 1 None (net_init (map Datagram (s3_handshake s3 :: rev (s3_packets s3))) [] []))))
+            (show_outcome show_gs3 (Ok (s3_expected s3))) = true /\
+  (2 <=? length (s1_script s1))%nat = true /\
+  bytes_eqb (show_outcome show_gs1 (fst (gs1_query 1 None (net_init (map Datagram (rev (s1_script s1))) [] []))))
+            (show_outcome show_gs1 (Ok (s1_expected s1))) = true.
+Proof. vm_compute. repeat split. Qed.
